@@ -1280,6 +1280,9 @@ done:
       if (*bin == NULL) {
         status = ARES_ENOMEM; /* LCOV_EXCL_LINE: OutOfMemory */
       }
+    } else {
+      /* Caller only wanted the string skipped, nothing takes ownership */
+      ares_buf_destroy(binbuf);
     }
   }
 
